@@ -171,7 +171,7 @@ def run(ctx):
             continue
         try:
             p = res.only()
-        except AssertionError as e:
+        except (AssertionError, KeyError, ValueError, TypeError, IndexError, ZeroDivisionError, AttributeError) as e:
             ctx.ob(key + '/paths', False, 'branch-free', r.name, 'one path', str(e)); continue
         done += 1
         if k == 'new':
